@@ -13,7 +13,7 @@ EXPL = ('Decides: (a) acceptance -- the tool\'s banner pattern is assembled from
         'L(^SSH-\\d\\.\\d+-[!-~]*( +[ -~]*)?$) <= L(RX_BANNER) and L(^SSH-\\d\\.\\d+$) <= L(RX_BANNER) is decided over printable ASCII on the product automaton (a shortest rejected banner is printed otherwise): a statement about all strings of the grammar; '
         'the pattern is anchored, has the four groups parse() indexes, and the protocol pattern has two digit groups; (b) parse() matches the SANITISED string while the validity flag is computed on the RAW one, both helpers use the same filter (evaluated at 31, 32, 126, 127), '
         'rejected characters become "?", and the non-conformance warning is printed iff the flag is false; (c) in the receive loop a line becomes header text only if it did not parse as a banner, the first parsed banner is returned, empty lines are skipped, decoding is total; '
-        '(d) each recognised product family is a ^-anchored constant pattern whose group 1 is the version handed to the constructor with that family\'s product, and the literal heads are pairwise prefix-disjoint. '
+        '(d) every documented family head (dropbear_, OpenSSH_/-, libssh-/_, RomSShell_, mpSSH_, Cisco-, tinyssh_, PuTTY_Release_, lancom) is served by a ^-anchored constant pattern (prefix automaton accepts the head) whose group 1 is the version handed to the constructor with that family\'s product; for the numeric families group 1 includes every dotted decimal version (automata inclusion); literal heads are pairwise prefix-disjoint. '
         'Not decided: that the captured parts equal the grammar\'s parts for every string, and parse/render round trips.')
 
 SPECS = [(r'^SSH-\d\.\d+-[!-~]*( +[ -~]*)?$', 'SSH-<major>.<minor>-<software>[ <comments>]'), (r'^SSH-\d\.\d+$', 'SSH-<major>.<minor>')]
@@ -177,32 +177,22 @@ def run(repo, rep, tier):
     # ---- rule 4: product table ---------------------------------------------------------------------------------------------------
     sp = repo.func('software', 'Software.parse')
     rep.saw(sp)
-    fams = []
-    for n in sp.body:
-        if isinstance(n, ast.Assign) and unparse(n.targets[0]) == 'mx' and isinstance(n.value, ast.Call) and unparse(n.value.func) == 're.match':
-            pat = n.value.args[0]
-            if not isinstance(pat, ast.Constant):
-                raise AnalysisError('product pattern not constant: %s' % unparse(n))
-            fams.append((pat.value, n))
+    from props import _products as P
+    _sp, pfams = P.families(repo)
+    fams = [(f.pattern, f.node) for f in pfams]
     for n in sp.body:
         if isinstance(n, ast.Assign) and unparse(n.targets[0]) == 'mx' and isinstance(n.value, ast.Call) and unparse(n.value.func).startswith('re.') and unparse(n.value.func) != 're.match':
             rep.check('products', 'product patterns are applied with re.match (anchored at the start of the software string)', False, n, 'product recognition uses %s: the pattern can match in the middle of another product\'s string' % unparse(n.value.func))
-    rep.floor('products', 'recognised product patterns', len(fams), 10)
+    rep.floor('products', 'recognised product patterns', len(fams), 6)
     heads = []
-    for pat, n in fams:
+    for f in pfams:
+        pat, n = f.pattern, f.node
         rep.check('products', 'pattern %r is anchored at the start' % pat, pat.startswith('^'), n, 'product pattern %r is not ^-anchored' % pat)
         subj = unparse(n.value.args[1])
         rep.check('products', 'pattern %r is matched against the software string' % pat, subj == 'software', n, 'pattern matched against %s' % subj)
-        try:
-            L = Lang(pat + ('' if pat.endswith('$') else '.*') if not pat.endswith('$') else pat)
-            rep.check('products', 'pattern %r has a version group' % pat, L.groups >= 1, n, 'pattern %r has no group' % pat)
-        except Unsupported as e:
-            raise AnalysisError('product pattern %r: %s' % (pat, e))
         m = re.match(r'^\^([A-Za-z][A-Za-z_]*)', pat)
         heads.append(m.group(1) if m else pat)
-        # the If following the match hands group(1) to the constructor
-        idx = sp.body.index(n)
-        nxt = next((x for x in sp.body[idx + 1:] if isinstance(x, ast.If)), None)
+        nxt = f.block
         ok = isinstance(nxt, ast.If) and unparse(nxt.test) in ('mx is not None', 'mx') and isinstance(nxt.body[-1], ast.Return) and isinstance(nxt.body[-1].value, ast.Call) and unparse(nxt.body[-1].value.func) == 'cls' \
             and unparse(nxt.body[-1].value.args[2]) == 'mx.group(1)'
         rep.check('products', 'family %r: group 1 is the version passed to the constructor' % pat, ok, nxt or n, 'family %r no longer passes mx.group(1) as version' % pat)
@@ -211,13 +201,26 @@ def run(repo, rep, tier):
             a, b = heads[i], heads[j]
             same_family = (a.rstrip('_-') == b.rstrip('_-')) or (a.startswith('libssh') and b.startswith('libssh'))
             rep.check('products', 'literal heads %r / %r are prefix-disjoint (order of the chain cannot matter)' % (a, b), same_family or not (a.startswith(b) or b.startswith(a)), fams[j][1], 'product patterns %r and %r overlap' % (fams[i][0], fams[j][0]))
-    want_prod = {'^dropbear_': 'Product.DropbearSSH', '^OpenSSH': 'Product.OpenSSH', '^libssh-': 'Product.LibSSH', '^libssh_': 'Product.LibSSH', '^tinyssh_': 'Product.TinySSH', '^PuTTY_Release_': 'Product.PuTTY'}
-    for pat, n in fams:
-        for head, prod in want_prod.items():
-            if pat.startswith(head):
-                nxt = next((x for x in sp.body[sp.body.index(n) + 1:] if isinstance(x, ast.If)), n)
-                t = unparse(nxt)
-                rep.check('products', 'family %s is labelled %s' % (head, prod), prod in t, nxt, 'family %s no longer labelled %s' % (head, prod))
+    # every documented family head is served by a pattern, labelled as documented, and (numeric families) group 1 can hold the whole dotted version
+    nserved = 0
+    for head, label, numeric in P.SPEC_HEADS:
+        f = P.serving(pfams, head)
+        rep.check('products', 'software strings starting with %r are recognised by a product pattern' % head, f is not None, sp, 'no product pattern recognises software strings starting with %r any more' % head, stmt='recognition of %s' % head)
+        if f is None:
+            continue
+        nserved += 1
+        if label is not None:
+            rep.check('products', 'family %s is labelled %s' % (head, label), f.block is not None and label in unparse(f.block), f.block or f.node, 'family %s no longer labelled %s' % (head, label), stmt='label of %s' % head)
+        if numeric:
+            ok, cex = P.captures_dotted(f)
+            rep.check('products', 'version group of %r can hold every dotted decimal version (for %r)' % (f.pattern, head), ok, f.node,
+                      'the version extracted from a %r software string is not the version in the string: group 1 of %r cannot hold %r' % (head, f.pattern, cex if not ok else ''), stmt='version capture for %s' % head)
+            rep.evals()
+            # a tail (patch level) after the version must not prevent recognition
+            if f.end_anchored:
+                ok3, cex3 = inclusion(Lang(r'([^0-9.].*)?'), f.post)
+                rep.check('products', 'pattern %r accepts any patch-level tail after the version' % f.pattern, ok3, f.node, 'pattern %r rejects the tail %r after the version' % (f.pattern, cex3 if not ok3 else ''), stmt='tail for %s' % head)
+    rep.samples.append({'rule': 'products', 'heads_served': nserved, 'patterns': [f.pattern for f in pfams]})
     sw = [n for n in walk_no_nested(sp) if isinstance(n, ast.Assign) and unparse(n.targets[0]) == 'software']
     rep.check('products', 'the product table is applied to the banner\'s software string', len(sw) == 1 and unparse(sw[0].value) == 'str(banner.software)', sw[0] if sw else sp, 'software source changed')
     rep.check('products', 'unknown software yields None', isinstance(sp.body[-1], ast.Return) and unparse(sp.body[-1].value) == 'None', sp, 'fallback return changed')
